@@ -142,7 +142,8 @@ where
                     // Convert Vec<u8> to Vec<u16>
                     let u16_vec: Vec<u16> = byte_vec
                         .chunks(2)
-                        .map(|chunk| u16::from_le_bytes([chunk[0], chunk[1]]))
+                        // a frame may end in the middle of a code unit: never index past its end
+                        .map(|chunk| u16::from_le_bytes([chunk[0], *chunk.get(1).unwrap_or(&0)]))
                         .collect();
 
                     body_string.push_str(&String::from_utf16_lossy(&u16_vec));
